@@ -6,9 +6,9 @@ import Pyc.Model.Canonical
 
 What is transliterated (line numbers of the pinned tree):
 * the sort of the selected inputs by `(str(transaction_id), index)`                         (build, 1443-1447)
-* `_set_redeemer_index`                                                                      (998-1033)
-* `add_script_input` / `add_minting_script` / `add_withdrawal_script` / `add_certificate_script`
-  and `_consolidate_redeemer`                                                                (227-463)
+* `_set_redeemer_index` (minting redeemers ranked among the policies of the normalised mint, repaired)  (998-1033)
+* `add_input` / `add_script_input` (a UTxO that is already an input is not appended again, repaired),
+  `add_minting_script` / `add_withdrawal_script` / `add_certificate_script` and `_consolidate_redeemer` (219-463)
 * `all_scripts`, `scripts`, `build_witness_set(remove_dup_script)`                           (535-569, 1153-1206)
 * `_redeemer_list`, `redeemers()` (map / list form)                                          (575-604)
 * `script_data_hash` property + `utils.script_data_hash` preimage                           (606-626, utils 235-268)
@@ -78,7 +78,8 @@ def sortAccounts (ks : List Bytes) : List Bytes := isort (fun a b => !bytesLt b 
 /-- `Address(staking_part=script_hash, network=…).to_primitive()`: header `0b1111_000n` then the hash -/
 def rewardAccount (net : Nat) (h : Bytes) : Bytes := UInt8.ofNat (0xF0 + net) :: h
 
-def mintIndex (mintKeys : List Bytes) (h : Bytes) : Option Nat := indexOf? h (sortPolicies mintKeys)
+/-- `sorted_mint_policies.index(script_hash(script))` over the policies `ks` that are ranked -/
+def mintIndex (ks : List Bytes) (h : Bytes) : Option Nat := indexOf? h (sortPolicies ks)
 
 /-- what the ledger sees of `self.inputs`: `TransactionBody.inputs` is an `OrderedSet`, a repeated UTxO is emitted once -/
 def bodyInputs : List TxIn → List TxIn
@@ -86,8 +87,10 @@ def bodyInputs : List TxIn → List TxIn
   | x :: xs => x :: (bodyInputs xs).filter (· != x)
 
 /-- what the ledger sees of `self.mint`: `MultiAsset.to_primitive` serializes a normalised copy, so a stored policy
-that holds no non-zero quantity is not in the body's mint field -/
+that holds no non-zero quantity is not in the body's mint field.  The repaired `_set_redeemer_index` ranks the minting
+redeemers over the same expression, `deepcopy(self.mint).normalize().keys()`. -/
 def bodyPolicies (mint : MultiAsset) : List Bytes := Dict.keys (MultiAsset.normalize mint)
+
 def rewardIndex (net : Nat) (wdrlKeys : List Bytes) (h : Bytes) : Option Nat :=
   indexOf? (rewardAccount net h) (sortAccounts wdrlKeys)
 
@@ -138,7 +141,7 @@ structure St where
   refScripts : List Script := []                        -- `_reference_scripts`
   refInputs : List TxIn := []                           -- `reference_inputs` (a set; order not meaningful)
   datums : List (Bytes × Bytes) := []                   -- `_datums`: datum hash ↦ CBOR of the datum (dict)
-  mintKeys : List Bytes := []                           -- `self.mint.keys()`
+  mint : MultiAsset := []                               -- `self.mint` as stored (`None` and `{}` are both falsy: `[]`)
   wdrlKeys : List Bytes := []                           -- `self.withdrawals.keys()`
   nCerts : Nat := 0                                     -- `len(self.certificates)`
   estimate : Option Bool := none                        -- `_should_estimate_execution_units`
@@ -168,7 +171,7 @@ inductive Op where
   | withdrawalScript (s : Script) (ref : Option TxIn) (r : Option Rdm)
   | certificateScript (s : Script) (ref : Option TxIn) (r : Option Rdm)
   | cert                                   -- `certificates.append(c)`
-  | mint (policy : Bytes)                  -- a policy enters `self.mint`
+  | mintSet (m : MultiAsset)               -- `builder.mint = m`: stored as given (a plain field, nothing normalises it)
   | withdraw (acct : Bytes)                -- `withdrawals[acct] = amount`
   | nativeScript (s : Script)              -- `native_scripts.append(s)`
   | outputDatum (d : Bytes × Bytes)        -- `add_output(o, datum, add_datum_to_witness=True)`
@@ -198,7 +201,8 @@ def attach (est : Option Bool) (r : Option Rdm) (tag : Nat) (idx : Option Nat) :
     | none => none
 
 def apply (st : St) : Op → Option St
-  | .addInput u => some { st with inputs := st.inputs ++ [u] }
+  -- `add_input`: `if utxo not in self.inputs: self.inputs.append(utxo)`
+  | .addInput u => some { st with inputs := addIfAbsent st.inputs u }
   | .scriptInput u s src datum r =>
     match attach st.estimate r 0 none with
     | none => none
@@ -216,7 +220,8 @@ def apply (st : St) : Op → Option St
           | none => st.inRedeemers),
         -- `self._inputs_to_scripts[utxo] = candidate_script`
         inScripts := aset st.inScripts u s,
-        inputs := st.inputs ++ [u] }
+        -- `if utxo not in self.inputs: self.inputs.append(utxo)` (the bookkeeping above is redone on every call)
+        inputs := addIfAbsent st.inputs u }
   | .mintingScript s ref r =>
     match attach st.estimate r 1 none with
     | none => none
@@ -233,7 +238,7 @@ def apply (st : St) : Op → Option St
     | none => none
     | some (e, r') => some (addRef { st with estimate := e, certificate := st.certificate ++ [(s, r')] } s ref)
   | .cert => some { st with nCerts := st.nCerts + 1 }
-  | .mint p => some { st with mintKeys := addIfAbsent st.mintKeys p }
+  | .mintSet m => some { st with mint := m }
   | .withdraw a => some { st with wdrlKeys := addIfAbsent st.wdrlKeys a }
   | .nativeScript s => some { st with nativeScripts := st.nativeScripts ++ [s] }
   | .outputDatum d => some { st with datums := Dict.set st.datums d.1 d.2 }
@@ -262,11 +267,12 @@ def setIdx (f : Script → Option Nat) : List (Script × Option Rdm) → Option 
     | some i, some r' => some ((s, some { rd with index := i }) :: r')
     | _, _ => none
 
-/-- `_set_redeemer_index`.  Certificate redeemers are not touched.  The closing
+/-- `_set_redeemer_index`.  `sorted_mint_policies = sorted(deepcopy(self.mint).normalize().keys(), key=to_cbor)` when
+`self.mint` is truthy, else `[]` (`bodyPolicies [] = []`).  Certificate redeemers are not touched.  The closing
 `self._redeemer_list.sort(key=lambda r: r.index)` sorts a list freshly built by the `_redeemer_list` property and
 discards it: it has no effect on any state, so it has no counterpart here. -/
 def setRedeemerIndex (net : Nat) (st : St) : Option St :=
-  match setIdx (fun s => mintIndex st.mintKeys s.hash) st.minting,
+  match setIdx (fun s => mintIndex (bodyPolicies st.mint) s.hash) st.minting,
         setIdx (fun s => rewardIndex net st.wdrlKeys s.hash) st.withdrawal with
   | some m, some w => some { st with inRedeemers := setSpend st.inputs st.inRedeemers, minting := m, withdrawal := w }
   | _, _ => none
